@@ -12,6 +12,10 @@ package main
 
 //@ func (*IPFIX).ipfixWorker
 //@   names i wQuit decodedMsg mirror msg buf err ok b d
+//@   opt countrecvs ipfixUDPCh
+//@   opt countcalls Decode
+//@   exitassert [handled] recvs_ipfixUDPCh - old(recvs_ipfixUDPCh) == calls_Decode - old(calls_Decode)   // every datagram the worker takes from the queue is decoded before it stops (C13: received = decoded + reported)
+//@   names i wQuit decodedMsg mirror msg buf err ok b d
 //@   opt nonblocking ipfixMCh ipfixMQCh   // a full mirror queue or a full producer queue never stops decoding (C16, C13)
 //@   names i wQuit decodedMsg mirror msg buf err ok b d
 //@   opt ownership datagram, mirror and encode buffers: released or handed-over buffers are not touched again; published values are fresh copies
@@ -20,6 +24,7 @@ package main
 //@   opt allocbound 65535   // copies of the received datagram and of its JSON encoding
 //@   modifies i.stats.DecodedCount, mCache
 //@   loop 1 @ for #ea48efdb
+//@     invariant [handled] recvs_ipfixUDPCh - pre(recvs_ipfixUDPCh) == calls_Decode - pre(calls_Decode)
 //@     invariant opts != nil && opts == old(opts) && opts.IPFIXUDPSize >= 0 && buf != nil && i != nil && cap(msg.body) >= opts.IPFIXUDPSize
 //@     step [once] sends_ipfixMQCh <= iter(sends_ipfixMQCh) + 1
 //@     step [records] sends_ipfixMQCh == iter(sends_ipfixMQCh) + 1 ==> decodedMsg != nil && len(decodedMsg.DataSets) > 0
@@ -31,6 +36,10 @@ package main
 
 //@ func (*NetflowV9).netflowV9Worker
 //@   names i wQuit decodedMsg msg buf err ok b d
+//@   opt countrecvs netflowV9UDPCh
+//@   opt countcalls Decode
+//@   exitassert [handled] recvs_netflowV9UDPCh - old(recvs_netflowV9UDPCh) == calls_Decode - old(calls_Decode)   // every datagram the worker takes from the queue is decoded before it stops (C13: received = decoded + reported)
+//@   names i wQuit decodedMsg msg buf err ok b d
 //@   opt nonblocking netflowV9MQCh
 //@   names i wQuit decodedMsg msg buf err ok b d
 //@   opt ownership datagram, mirror and encode buffers: released or handed-over buffers are not touched again; published values are fresh copies
@@ -39,6 +48,7 @@ package main
 //@   opt allocbound 65535
 //@   modifies i.stats.DecodedCount, mCacheNF9
 //@   loop 1 @ for #40268664
+//@     invariant [handled] recvs_netflowV9UDPCh - pre(recvs_netflowV9UDPCh) == calls_Decode - pre(calls_Decode)
 //@     invariant opts != nil && opts == old(opts) && opts.NetflowV9UDPSize >= 0 && buf != nil && i != nil && cap(msg.body) >= opts.NetflowV9UDPSize
 //@     step [once] sends_netflowV9MQCh <= iter(sends_netflowV9MQCh) + 1
 //@     step [records] sends_netflowV9MQCh == iter(sends_netflowV9MQCh) + 1 ==> decodedMsg != nil && decodedMsg.DataSets != nil
@@ -50,6 +60,10 @@ package main
 
 //@ func (*NetflowV5).netflowV5Worker
 //@   names i wQuit decodedMsg msg buf err ok b d
+//@   opt countrecvs netflowV5UDPCh
+//@   opt countcalls Decode
+//@   exitassert [handled] recvs_netflowV5UDPCh - old(recvs_netflowV5UDPCh) == calls_Decode - old(calls_Decode)   // every datagram the worker takes from the queue is decoded before it stops (C13: received = decoded + reported)
+//@   names i wQuit decodedMsg msg buf err ok b d
 //@   opt nonblocking netflowV5MQCh
 //@   names i wQuit decodedMsg msg buf err ok b d
 //@   opt ownership datagram, mirror and encode buffers: released or handed-over buffers are not touched again; published values are fresh copies
@@ -58,6 +72,7 @@ package main
 //@   opt allocbound 65535
 //@   modifies i.stats.DecodedCount
 //@   loop 1 @ for #90b4f9a9
+//@     invariant [handled] recvs_netflowV5UDPCh - pre(recvs_netflowV5UDPCh) == calls_Decode - pre(calls_Decode)
 //@     invariant opts != nil && opts == old(opts) && opts.NetflowV5UDPSize >= 0 && buf != nil && i != nil && cap(msg.body) >= opts.NetflowV5UDPSize
 //@     step [once] sends_netflowV5MQCh <= iter(sends_netflowV5MQCh) + 1
 //@     step [published] decodedMsg != nil && decodedMsg.Flows != nil && err == nil && !full_netflowV5MQCh ==> sends_netflowV5MQCh == iter(sends_netflowV5MQCh) + 1
@@ -67,6 +82,10 @@ package main
 //@ poolinv sFlowBuffer x: iskind(x, bytes) && typeid(x) == tyof([]byte) && len(anybytes(x)) == opts.SFlowUDPSize && cap(anybytes(x)) >= opts.SFlowUDPSize
 
 //@ func (*SFlow).sFlowWorker
+//@   names s wQuit reader msg mirror ok b d datagram err
+//@   opt countrecvs sFlowUDPCh
+//@   opt countcalls SFDecode
+//@   exitassert [handled] recvs_sFlowUDPCh - old(recvs_sFlowUDPCh) == calls_SFDecode - old(calls_SFDecode)   // every datagram the worker takes from the queue is decoded before it stops (C13: received = decoded + reported)
 //@   names s wQuit reader msg mirror ok b d datagram err
 //@   opt nonblocking sFlowMCh sFlowMQCh
 //@   names s wQuit reader msg mirror ok b d datagram err
@@ -78,6 +97,7 @@ package main
 //@   opt allocbound 65535
 //@   modifies s.stats.DecodedCount
 //@   loop 1 @ for #8fd0c876
+//@     invariant [handled] recvs_sFlowUDPCh - pre(recvs_sFlowUDPCh) == calls_SFDecode - pre(calls_SFDecode)
 //@     invariant opts != nil && opts == old(opts) && opts.SFlowUDPSize >= 0 && s != nil
 //@     step [once] sends_sFlowMQCh <= iter(sends_sFlowMQCh) + 1
 //@     step [published] datagram != nil && (len(datagram.Counters) >= 1 || len(datagram.Samples) >= 1) && err == nil && !full_sFlowMQCh ==> sends_sFlowMQCh == iter(sends_sFlowMQCh) + 1
